@@ -15,8 +15,10 @@ CHECKS = {
         text=("Theorems (all tet meshes, all flip patterns, unbounded size) about the Gallina model of tet_mesh.py: is_oriented iff all signed "
               "volumes positive; orient_ swaps exactly the negative tets, keeps sets/order, returns their number, result oriented when "
               "non-degenerate; boundary_tria = exactly the faces whose vertex set occurs once, each once; ownership of transferred function; "
-              "per-tet divergence identity. Model tied to the code by in-Coq comparison on generated meshes; closedness/orientation/"
-              "enclosed-volume clauses of the boundary are decided by oracle search only (partial)."),
+              "per-tet divergence identity; for every mesh in which no face belongs to more than two tetrahedra every edge lies in an even "
+              "number of boundary faces, so the extracted surface is closed (is_closed = true). Model tied to the code by in-Coq comparison "
+              "on generated meshes; orientation and enclosed-volume clauses of the boundary (they need a geometric embedding without "
+              "overlaps) are decided by oracle search only (partial)."),
         design="6/C12", technique="Coq proof over list model (sorting/grouping lemmas, ring) + vm_compute correspondence"),
 }
 
